@@ -125,7 +125,10 @@ def _baseline_shape(prog):
     """Number of deliveries and last instant of the unobserved run (from the reference: cheap, harness-side only)."""
     from hsverif.progmodel import run_reference
 
-    ref = run_reference(prog, exact_overshoot=True)
+    try:
+        ref = run_reference(prog, exact_overshoot=True)
+    except RuntimeError:  # a program the generator could not bring under the reference budget
+        return 3000, 10**9
     times = [e[1] for e in ref.log]
     return ref.processed, (max(times) if times else 0)
 
